@@ -363,6 +363,12 @@ def r3(repo, chk, prog):
     chk.ob("R3", "_handle_new_connection_id_frame bounds the pending retirements (exemption of _retire_peer_cid)", ok, "", h.loc(h.node))
     ok = any(any("len(self._peer_cid_available)" in a[0] and "self._local_active_connection_id_limit" in a[0] and " > " in a[0] and a[1] for a in h.guard_atoms(r)) for r in rs)
     chk.ob("R3", "_handle_new_connection_id_frame bounds the stored peer connection IDs by the advertised active_connection_id_limit", ok, "", h.loc(h.node))
+    # the count compared with the limit is taken after a retired active ID was replaced from the stored ones (before the
+    # replacement the store still holds the ID about to be taken into use: one too many, a compliant peer is accused)
+    lim_raises = [r for r in rs if any("len(self._peer_cid_available)" in a[0] for a in h.guard_atoms(r) + h.lexical_guards(r, expand=True))]
+    cons = h.calls(name="self._consume_peer_cid")
+    ok = bool(lim_raises) and bool(cons) and all(isinstance(r._parent, ast.If) and not h.cfg.reaches(h.cfg.begin[r._parent], h.cfg.node_of(c)) for r in lim_raises for c in cons)
+    chk.ob("R3", "_handle_new_connection_id_frame counts the stored IDs after the retired active ID was replaced", ok, "the limit test runs while the replacement is still counted among the stored IDs: a peer that rotates one ID at the limit is closed with CONNECTION_ID_LIMIT_ERROR", h.loc(h.node))
     hm = Fn(repo, "tls:Context.handle_message")
     tm = hm.mod
     lim = repo.const(tm, tm.assigns.get("MAX_HANDSHAKE_MESSAGE_SIZE")) if "MAX_HANDSHAKE_MESSAGE_SIZE" in tm.assigns else Unknown
